@@ -396,6 +396,8 @@ func runCase() {
 		caseMemdb(res, idx, dir, seed, tier)
 	case "schemacache":
 		caseSchemaCache(res, idx, dir, seed, tier)
+	case "flushpark":
+		caseFlushPark(res, idx, dir, seed, tier)
 	}
 	seam.Restore()
 	data, _ := json.Marshal(res)
